@@ -5,6 +5,9 @@ props = [json.loads(l) for l in open('/verif/properties.jsonl')]
 ids = [p['id'] for p in props]
 
 CHECKS = {
+ "C04": dict(category="exploration", technique="runtime crash/hang/diagnostic monitor: every entry point run in budgeted worker processes under a panic hook, CPU/RSS watchdog with gdb stack attribution, diagnostic-range assertions",
+   text="Corpus files, targeted well-formed shapes aimed at post-parser panic sites, bounded deep nesting, and seeded token/line/char mutations, splices and token soups (9k quick, 3M thorough) are driven through compile (+Go printing and all stage dumps) and typecheck_with_packages; a monitor records panics (site = file::function), aborts, stack overflows, CPU/memory blow-ups (attributed to a compiler pass by sampling the stack with gdb), Err results without error diagnostics and diagnostic ranges outside the text. Held on what was explored; known findings are pinned by witness and signature.",
+   design_ref="DESIGN.md 4/C04", note="termination is the bounded form (10 CPU-s, 3 GiB per input <= 64 KiB); nesting depth <= 64 on an 8 MiB stack; CLI subprocess and artifact-file entry points are covered by C15's fault enumeration"),
  "C12": dict(category="exploration", technique="runtime monitor: lossless-CST / token-tiling / range / determinism assertions over exhaustive short strings, token soups and corpus mutations, under a panic hook and CPU watchdog",
    text="Every explored input text (exhaustive over a 27-symbol alphabet to length 3/4, token soups, multiline-string torture, prefixes and mutations of all corpus files) is lexed and parsed by the real lexer/parser; an online monitor asserts tiling, CST text == input, in-range char-boundary positions, kind-name agreement and parse determinism. Exhaustive for the short-string space, sampled beyond.",
    design_ref="DESIGN.md 4/C12", note="trusts rowan's text(); termination is the bounded form (20 CPU-s per batch)"),
